@@ -706,8 +706,14 @@ class InterpolatableFunction(ABC):
         else:
             appendPointsMax = np.array([])
 
-        appendValuesMin = np.asarray(self._functionImplementation(appendPointsMin))
-        appendValuesMax = np.asarray(self._functionImplementation(appendPointsMax))
+        # Only evaluate where there are new points: the implementation is not required
+        # to handle empty input
+        appendValuesMin = np.asarray(self._interpolationValues)[:0]
+        appendValuesMax = appendValuesMin
+        if appendPointsMin.size > 0:
+            appendValuesMin = np.asarray(self._functionImplementation(appendPointsMin))
+        if appendPointsMax.size > 0:
+            appendValuesMax = np.asarray(self._functionImplementation(appendPointsMax))
 
         # Ordering is important since interpolation needs the x values to be ordered.
         # This works, but could be made safer by rearranging the resulting arrays:
